@@ -207,3 +207,56 @@ def run(R: vlib.Run):
                            {"api": api, "x": x.tolist(), "gulp": gulp, "start": start, "nsamps": nsamps, "delays": delays, "impl": out})
     finally:
         shutil.rmtree(d, ignore_errors=True)
+
+
+def scale(R: vlib.Run):
+    """at-scale search: tens of thousands of samples (beyond the default gulp of 16384), many blocks, large sums"""
+    from sigpyproc.readers import FilReader
+    nprng = np.random.default_rng(R.seed + 606)
+    d = os.path.join(vlib.SCRATCH, f"c06s_{os.getpid()}")
+    os.makedirs(d, exist_ok=True)
+    try:
+        for nbits, nch, N, splits in ((8, 4, 70000, [40000]), (2, 8, 50000, []), (32, 2, 40000, [16384]), (8, 1024, 20000, [])):
+            x = nprng.integers(0, min(1 << nbits, 64), (N, nch), dtype=np.uint8)   # every float32 sum stays below 2**24: exact
+            paths = filutil.write_fil_set(os.path.join(d, f"s{nbits}_{nch}"), x, nbits, splits, fch1=400.0, foff=-200.0 / nch, tsamp=0.001)
+            fil = FilReader(paths)
+            dm = next((float(v) for v in np.linspace(0.5, 400, 200) if 1000 < int(fil.header.get_dmdelays(float(v)).max()) < 3000), 1.0)
+            delays = fil.header.get_dmdelays(dm).astype(int)
+            md = int(delays.max())
+            for start, nsamps in ((0, N), (1234, N - 5000), (N - 17000, 17000)):
+                want = x[start:start + nsamps].astype(np.float64)
+                tim = want.sum(1); bp = want.mean(0)
+                outlen = nsamps - md
+                wantd = np.zeros(outlen)
+                for c in range(nch):
+                    wantd += want[delays[c]:delays[c] + outlen, c]
+                for gulp in (16384, 1000, 20000, 65536, 4097):
+                    base = {"nbits": nbits, "nchans": nch, "N": N, "splits": splits, "start": start, "nsamps": nsamps, "gulp": gulp,
+                            "data": f"numpy.random.default_rng({R.seed + 606}) stream, see props/c06.py scale()"}
+                    R.tick(base)
+                    R.case(("scale", nbits, nch, start, nsamps, gulp), regime="scale")
+                    k, r = call(fil.collapse, gulp=gulp, start=start, nsamps=nsamps, quiet=True)
+                    if k != "ok" or r.data.shape != tim.shape or not np.array_equal(r.data, tim):
+                        R.fail("scale-collapse", "collapse at scale differs from the per-sample channel sums", dict(base, exc=r if k != "ok" else None))
+                    k, r = call(fil.bandpass, gulp=gulp, start=start, nsamps=nsamps, quiet=True)
+                    if k != "ok" or r.data.shape != bp.shape or not np.allclose(r.data, bp, rtol=1e-5, atol=1e-5):
+                        R.fail("scale-bandpass", "bandpass at scale differs from the per-channel means", dict(base, exc=r if k != "ok" else None))
+                    ich = (gulp + start) % nch
+                    k, r = call(fil.read_chan, ich, gulp=gulp, start=start, nsamps=nsamps, quiet=True)
+                    if k != "ok" or r.data.shape != (nsamps,) or not np.array_equal(r.data, want[:, ich]):
+                        R.fail("scale-read_chan", "read_chan at scale differs from the channel's column", dict(base, ichan=ich, exc=r if k != "ok" else None))
+                    k, r = call(fil.dedisperse, dm, gulp=gulp, start=start, nsamps=nsamps, quiet=True)
+                    if k != "ok" or r.data.shape != (outlen,) or not np.array_equal(r.data, wantd):
+                        R.fail("scale-dedisperse", "dedisperse at scale differs from sum_c x[t+d_c][c]", dict(base, dm=dm, maxdelay=md, exc=r if k != "ok" else None))
+                    if nch <= 8 and gulp in (16384, 4097):
+                        k, r = call(fil.compute_stats, gulp=gulp, start=start, nsamps=nsamps, quiet=True)
+                        st = fil.chan_stats if k == "ok" else None
+                        if (k != "ok" or not np.array_equal(st.moments["count"], np.full(nch, nsamps)) or not np.array_equal(st.maxima, want.max(0))
+                                or not np.array_equal(st.minima, want.min(0)) or not np.allclose(st.mean, want.mean(0), rtol=1e-4, atol=1e-4)
+                                or not np.allclose(st.var, want.var(0), rtol=1e-3, atol=1e-3)):
+                            R.fail("scale-stats", "channel statistics at scale differ from the moments of the selected samples", dict(base, exc=r if k != "ok" else None))
+            del fil
+            for p in paths:
+                os.remove(p)
+    finally:
+        shutil.rmtree(d, ignore_errors=True)
